@@ -14,6 +14,12 @@ if [ "$V" = asan ]; then
   CC=clang; CXX=clang++
   FL="$COMMON -fsanitize=address -fsanitize=signed-integer-overflow,integer-divide-by-zero,shift-exponent,float-cast-overflow -fsanitize-recover=all"
   AVX512=ON
+elif [ "$V" = fine ]; then
+  # like plain, plus a call to the simulator at every function entry of library code (forced preemption points, DESIGN.md 13.6);
+  # hot SIMD/C kernels are left uninstrumented
+  CC=gcc; CXX=g++
+  FL="$COMMON -finstrument-functions -finstrument-functions-exclude-file-list=ASM_SSE2,ASM_SSSE3,ASM_SSE4_1,ASM_AVX2,ASM_AVX512,C_DEFAULT,third_party,EbBitstreamUnit,EbCabacContextModel,EbTransforms,EbInvTransforms,EbFullLoop,EbRateDistortionCost,EbCdef.c,EbRestoration,EbAvcStyleMcp,convolve,EbPictureOperators,EbUtility,EbComputeSAD"
+  AVX512=OFF
 else
   CC=gcc; CXX=g++
   FL="$COMMON"
